@@ -131,7 +131,7 @@ func parseRegexFilter(data string, offset int, logger *zap.Logger) (FieldFilter,
 	if err := json.Unmarshal([]byte(args[2]), &groups); err != nil {
 		return nil, filterEndPos, fmt.Errorf("failed to parse regexp filter groups: %w", err)
 	}
-	cfg.VerifyGroupNumbers(groups, re.NumSubexp(), logger)
+	groups = cfg.VerifyGroupNumbers(groups, re.NumSubexp(), logger)
 	if err := json.Unmarshal([]byte(args[3]), &separator); err != nil {
 		return nil, filterEndPos, fmt.Errorf("failed to parse regexp filter separator: %w", err)
 	}
